@@ -45,7 +45,10 @@ PickTpls == { <<TCDollar, TCOpen, TC1, TCClose>>, <<TCDollar, TCOpen, TCx, TCClo
               <<TCDollar, TC1, TC0>>, <<TCDollar, TCOpen, TCClose>>,
               \* the underscore is a name character: $1_ and $x_ name groups that do not exist, ${1}_ does not
               <<TCDollar, TC1, TCUnd>>, <<TCDollar, TCx, TCUnd>>, <<TCDollar, TCOpen, TCx, TCUnd, TCClose>>,
-              <<TCDollar, TCOpen, TC1, TCClose, TCUnd>>, <<TCDollar, TCUnd, TC1>>, <<TCDollar, TC1, TCUnd, TCDollar, TC2>> }
+              <<TCDollar, TCOpen, TC1, TCClose, TCUnd>>, <<TCDollar, TCUnd, TC1>>, <<TCDollar, TC1, TCUnd, TCDollar, TC2>>,
+              \* a `$` that starts no reference is literal, and what follows it is still expanded
+              <<TCDollar, TCDash, TCDollar, TC1>>, <<TCDollar, TCOpen, TCClose, TCDollar, TC1>>, <<TCDollar, TCOpen, TCx, TCDollar, TC1>>,
+              <<TCDollar, TCDash, TCDollar, TCDollar, TCDollar, TCOpen, TCx, TCClose>>, <<TC1, TCDollar, TCDash, TCDollar, TC0>> }
 
 Opt(ci, word, line, crlf, inv) == [ci |-> ci, smart |-> FALSE, word |-> word, line |-> line, crlf |-> crlf, nul |-> FALSE, inv |-> inv, dotall |-> FALSE]
 Plain == Opt(FALSE, FALSE, FALSE, FALSE, FALSE)
